@@ -122,13 +122,26 @@ def spawn_seeding(ctx, F, cb, rule):
     ctx.check(okf, rule, 'init-filter', sp.b,
               good='the elements of init_states() are tested with within_boundary',
               bad='%s spawn: initial states are not filtered by within_boundary' % cb.strat)
+    from common import collected_elements
+    from taint import origins
     seeds = [c for c in s.calls_to('DashMap::insert', 'DashSet::insert')
              if c.targs and 'NonZero<u64>' in c.targs[0]]
-    ok_seed = bool(seeds)
+    seed_keys = [(c, c.args[1], ()) for c in seeds]
+    # ... or collected: `iter().map(|s| (fingerprint(s), None)).collect::<DashMap<..>>()`
+    for (y, el, col) in collected_elements(s, lambda t: re.match(r'^dashmap::Dash(Map|Set)<std::num::NonZero<u64>', t) is not None):
+        is_map = s.locals[col.dest['l']]['ty'].startswith('dashmap::DashMap')
+        seed_keys.append((y, el, ({'f': 0},) if is_map else ()))
+        seeds.append(y)
+    ok_seed = bool(seed_keys)
     why = ''
-    for c in seeds:
-        labels = T.of_operand(c.args[1], c.bb)
-        org = origin_calls(s, c.args[1])
+    for c, key_op, extra in seed_keys:
+        labels = T.of_operand(key_op, c.bb)
+        if extra:
+            org = set()
+            for o in origins(s, dict(key_op, place=dict(key_op['place'], p=list(key_op['place']['p']) + list(extra)))):
+                org.add(o if not isinstance(o, tuple) else 'other')
+        else:
+            org = origin_calls(s, key_op)
         if labels != {CLEAN}:
             ok_seed = False
             why = 'key derives from %s' % sorted(labels)
